@@ -88,6 +88,10 @@ type c14Case struct {
 	direct *casbin.Enforcer // the embedded enforcer: changes made here do not (and need not) invalidate
 }
 
+// c14FailingWatcher: the next cases get a watcher whose notifications fail — every management call then
+// returns (true, err) with the change applied; invalidation must not depend on the error
+var c14FailingWatcher bool
+
 func newC14Case(synced bool) *c14Case {
 	a := mem.New()
 	m := mustModel(strings.Replace(rbacText, "g(r.sub, p.sub)", "r.sub == p.sub", 1))
@@ -96,17 +100,23 @@ func newC14Case(synced bool) *c14Case {
 		if err != nil {
 			panic(err)
 		}
+		if c14FailingWatcher {
+			_ = e.SetWatcher(mem.Plain{Watcher: &mem.Watcher{Fail: true}})
+		}
 		return &c14Case{synced: true, api: e, under: e.SyncedEnforcer.Enforce, direct: e.SyncedEnforcer.Enforcer}
 	}
 	e, err := casbin.NewCachedEnforcer(m, a)
 	if err != nil {
 		panic(err)
 	}
+	if c14FailingWatcher {
+		_ = e.SetWatcher(mem.Plain{Watcher: &mem.Watcher{Fail: true}})
+	}
 	return &c14Case{api: e, under: e.Enforcer.Enforce, direct: e.Enforcer}
 }
 
 func runC14(c *Ctx) {
-	c.Rule = "histories of Enforce and invalidating / non-invalidating calls on the real CachedEnforcer and SyncedCachedEnforcer (seeded random to length 40, plus all histories of depth <= 3 over a 14-call alphabet), request tuples over strings that include the key separator ('$$', '$', '1:a', '@3:abc$$', empty, multi-byte), EnforceContext and uncacheable parameters, cache on/off, lifetime 0 / 300 ms with real sleeps; the underlying enforcer's current answer is read through the embedded enforcer before every cached Enforce; every served answer is compared with the Lean model and must lie in the admissible set of C14.served_was_given; non-trivial = a history that repeats a request tuple and contains an invalidating call; distinct = whole history"
+	c.Rule = "histories of Enforce and invalidating / non-invalidating calls on the real CachedEnforcer and SyncedCachedEnforcer (seeded random to length 40, plus all histories of depth <= 3 (quick) / 4 (thorough) over a 15-call alphabet on a listed and an unlisted rule, slice and variadic forms, both batch orders, x both enforcers x with and without a failing watcher), request tuples over strings that include the key separator ('$$', '$', '1:a', '@3:abc$$', empty, multi-byte), EnforceContext and uncacheable parameters, cache on/off, lifetime 0 / 300 ms with real sleeps, every third case with a watcher whose notifications fail (management calls then return (true, err) with the change applied); the underlying enforcer's current answer is read through the embedded enforcer before every cached Enforce; every served answer is compared with the Lean model and must lie in the admissible set of C14.served_was_given; non-trivial = a history that repeats a request tuple and contains an invalidating call; distinct = whole history"
 	fields := []string{"alice", "a$$b", "c", "a", "b$$c", "", "$", "1:a", "@3:abc$$", "é", "read", "data1"}
 	rules := [][]string{{"alice", "data1", "read"}, {"a$$b", "c", "read"}, {"a", "b$$c", "read"}, {"", "", ""}, {"é", "$", "1:a"}}
 	nRandom := 300
@@ -116,9 +126,19 @@ func runC14(c *Ctx) {
 	for i := 0; i < nRandom; i++ {
 		synced := c.Rng.Intn(2) == 0
 		withTTL := i%40 == 0 // the few real-time cases
+		c14FailingWatcher = i%3 == 2
+		if c14FailingWatcher {
+			c.Count("cases_with_failing_watcher", 1)
+		}
 		c14Random(c, synced, 5+c.Rng.Intn(36), fields, rules, withTTL)
+		c14FailingWatcher = false
 	}
 	c.Count("ttl_cases", nRandom/40)
+	xdepth := 3
+	if c.Thorough() {
+		xdepth = 4
+	}
+	c14Exhaustive(c, xdepth)
 	c14Keys(c)
 	for _, synced := range []bool{false, true} {
 		c14Lifetime(c, synced)
@@ -232,6 +252,102 @@ func c14Lifetime(c *Ctx, synced bool) {
 		c.Evals++
 		c.Count("lifetime_scenarios", 1)
 		c.Nontrivial(fmt.Sprintf("lifetime|%v|%d", synced, variant))
+	}
+}
+
+// all histories of depth <= d over every invalidating and non-invalidating call on two rules (one listed at
+// the start, one not), slice and variadic forms, both batch orders, for both enforcers, with and without a
+// watcher whose notifications fail
+func c14Exhaustive(c *Ctx, depth int) {
+	r1, r2 := []string{"alice", "data1", "read"}, []string{"bob", "data2", "write"}
+	type xop struct {
+		line string
+		run  func(cs *c14Case) string
+	}
+	enf := func(r []string) xop {
+		q := strParams(r)
+		return xop{run: func(cs *c14Case) string {
+			args := make([]interface{}, len(q))
+			for j, p := range q {
+				args[j] = p.goVal()
+			}
+			ub, uerr := cs.under(args...)
+			u := "f"
+			if uerr != nil {
+				u = "e"
+			} else if ub {
+				u = "t"
+			}
+			ok, err := cs.api.Enforce(args...)
+			obs := proto.Bool(ok)
+			if err != nil {
+				obs = "err"
+			}
+			return "cenf " + u + " " + paramsTok(q) + "\t" + obs
+		}}
+	}
+	hdr := func(line string, f func(cs *c14Case)) xop {
+		return xop{run: func(cs *c14Case) string { f(cs); return line + "\t#" }}
+	}
+	alpha := []xop{
+		enf(r1), enf(r2),
+		hdr("cadd "+paramsTok(strParams(r1)), func(cs *c14Case) { _, _ = cs.api.AddPolicy(r1) }),
+		hdr("cadd "+paramsTok(strParams(r2)), func(cs *c14Case) { _, _ = cs.api.AddPolicy(r2[0], r2[1], r2[2]) }),
+		hdr("crm "+paramsTok(strParams(r1)), func(cs *c14Case) { _, _ = cs.api.RemovePolicy(r1) }),
+		hdr("crm "+paramsTok(strParams(r2)), func(cs *c14Case) { _, _ = cs.api.RemovePolicy(r2[0], r2[1], r2[2]) }),
+		hdr("crms "+rulesTok([][]string{r1, r2}), func(cs *c14Case) { _, _ = cs.api.RemovePolicies([][]string{r1, r2}) }),
+		hdr("crms "+rulesTok([][]string{r2, r1}), func(cs *c14Case) { _, _ = cs.api.RemovePolicies([][]string{r2, r1}) }),
+		hdr("cadds "+rulesTok([][]string{r1, r2}), func(cs *c14Case) { _, _ = cs.api.AddPolicies([][]string{r1, r2}) }),
+		hdr("cadds "+rulesTok([][]string{r2, r1}), func(cs *c14Case) { _, _ = cs.api.AddPolicies([][]string{r2, r1}) }),
+		hdr("cinv", func(cs *c14Case) { _ = cs.api.InvalidateCache() }),
+		hdr("cload", func(cs *c14Case) { _ = cs.api.LoadPolicy() }),
+		hdr("cclear", func(cs *c14Case) { cs.api.ClearPolicy() }),
+		hdr("cenable 0", func(cs *c14Case) { cs.api.EnableCache(false) }),
+		hdr("cenable 1", func(cs *c14Case) { cs.api.EnableCache(true) }),
+	}
+	for _, synced := range []bool{false, true} {
+		for _, failW := range []bool{false, true} {
+			seq := make([]int, 0, depth)
+			var rec func()
+			run := func() {
+				c14FailingWatcher = failW
+				cs := newC14Case(synced)
+				c14FailingWatcher = false
+				// r1 is listed (and stored) from the start
+				_, _ = cs.direct.AddNamedPolicy("p", r1)
+				s := "0"
+				if synced {
+					s = "1"
+				}
+				c.W.Op("case cached "+s, "#")
+				var lines []string
+				for _, i := range seq {
+					lo := alpha[i].run(cs)
+					line, obs, _ := strings.Cut(lo, "\t")
+					c.W.Op(line, obs)
+					lines = append(lines, line)
+				}
+				c.Evals++
+				c.Count("exhaustive_histories", 1)
+				if len(seq) == depth && (seq[0] < 2) && (seq[depth-1] < 2) {
+					c.Nontrivial(fmt.Sprintf("x|%v|%v|%s", synced, failW, strings.Join(lines, ";")))
+				}
+			}
+			rec = func() {
+				if len(seq) > 0 {
+					run()
+				}
+				if len(seq) == depth {
+					return
+				}
+				for i := range alpha {
+					seq = append(seq, i)
+					rec()
+					seq = seq[:len(seq)-1]
+				}
+			}
+			rec()
+		}
 	}
 }
 
